@@ -37,13 +37,19 @@ package parser
 //@ spec keptRev(M, M0, src, tgt) = forall(l, 0, 1<<32, forall(c, 0, 1<<32, implies(has(M0, l) && has(M0[l], c) && !inTgtRect(src, tgt, l, c), has(M, l) && has(M[l], c) && M[l][c] == M0[l][c])))
 
 //@ func (*SourceMap) Add [C07]
-//@   requires innerOK(sm.SourceLinesToTarget) && innerOK(sm.TargetLinesToSource)
-//@   ensures innerOK(sm.SourceLinesToTarget) && innerOK(sm.TargetLinesToSource)
-//@   requires sm != nil && sm.SourceLinesToTarget != nil && sm.TargetLinesToSource != nil
-//@   requires inL(src.Value, UTF8_VALID)
-//@   requires src.Range.From.Col + len(src.Value) < 1<<31 && tgt.From.Col + len(src.Value) < 1<<31
-//@   requires src.Range.From.Line + len(split(src.Value, "\n")) < 1<<31 && tgt.From.Line + len(split(src.Value, "\n")) < 1<<31
-//@   requires src.Range.From.Index >= 0 && tgt.From.Index >= 0
+// at a call site in the generator (g the generator, g.w its range writer): the target range is where the
+// expression's own text was just written - the bytes of the output at tgt.From.Index are src.Value, and
+// tgt.From is the line / column of that offset
+//@   callsite requires implies(!failedDuring && inL(src.Value, UTF8_VALID), tgt.From.Index >= 0 && tgt.From.Index + len(src.Value) <= len(out(g.w.w)) && sub(out(g.w.w), tgt.From.Index, tgt.From.Index + len(src.Value)) == src.Value)
+//@   callsite requires implies(!failedDuring && inL(src.Value, UTF8_VALID), tgt.From.Line == nlCount(out(g.w.w), tgt.From.Index) && tgt.From.Col == tgt.From.Index - lineStart(out(g.w.w), tgt.From.Index))
+//@   requires sm != nil && sm.SourceLinesToTarget != nil && sm.TargetLinesToSource != nil && innerOK(sm.SourceLinesToTarget) && innerOK(sm.TargetLinesToSource)
+//@   ensures innerOK(sm.SourceLinesToTarget) && innerOK(sm.TargetLinesToSource) && sm.SourceLinesToTarget != nil && sm.TargetLinesToSource != nil
+// the expression text is well-formed UTF-8 (it is Go source); machine arithmetic: line, column and index
+// counters do not wrap (files are far below 2 GiB)
+//@   assume entry: inL(src.Value, UTF8_VALID)
+//@   assume entry: src.Range.From.Col + len(src.Value) < 1<<31 && tgt.From.Col + len(src.Value) < 1<<31
+//@   assume entry: src.Range.From.Line + len(split(src.Value, "\n")) < 1<<31 && tgt.From.Line + len(split(src.Value, "\n")) < 1<<31
+//@   assume entry: src.Range.From.Index >= 0 && tgt.From.Index >= 0
 //@   modifies sm.Expressions, sm.SourceLinesToTarget, sm.TargetLinesToSource
 //@   ensures updatedFrom == src.Range.From
 // every line of the expression is recorded in both directions, the reverse entry inverting the forward one
